@@ -22,6 +22,10 @@ func init() {
 				r.Rule("R09h", "STORE-EVERY-ROOT: the loop of the from-roots constructor stores a node for every root position it is given, the empty roots included (the addition code requires a node at every root position it merges over)")
 				checkStoreEveryRecord(p, r, "R09h", []string{"NewMapPollardFromRoots"}, 1)
 			}},
+			{ID: "R09k", Statement: "bare roots are flagged by the configuration", Run: func(p *Program, r *Report) {
+				r.Rule("R09k", "ROOTS-FLAGGED-BY-CONFIGURATION: the keep flag the from-roots constructor stores with a root is the forest's configuration (its full argument), not a constant")
+				checkRootsFlaggedByConfiguration(p, r, "R09k", "NewMapPollardFromRoots")
+			}},
 			{ID: "R09j", Statement: "the deletion-undo moves climbed subtrees back by geometry, not by what is stored", Run: func(p *Program, r *Report) {
 				checkEmptyRootByGeometry(p, r, "R09j")
 			}},
